@@ -6,8 +6,11 @@ VERIF = os.path.dirname(os.path.dirname(os.path.abspath(__file__)))
 def sh(cmd, env=None): return subprocess.run(cmd, shell=True, stdout=subprocess.PIPE, stderr=subprocess.STDOUT, text=True, env=env)
 props = [c["property_id"] for c in json.load(open(os.path.join(VERIF, "MANIFEST.json")))["checks"]]
 out = {}
+only = [a for a in sys.argv[1:] if not a.startswith("--")]      # optional file-name prefixes, e.g. "S" or "R1"
+resname = "RESULT%s.json" % ("-" + "-".join(only) if only else "")
 for f in sorted(os.listdir(os.path.join(VERIF, "seeded", "rewrites"))):
     if not f.endswith(".diff"): continue
+    if only and not any(f.startswith(o) for o in only): continue
     wt = "/tmp/rewrites/%s-%d" % (f[:-5], os.getpid())
     sh("mkdir -p /tmp/rewrites; git -C /repo worktree prune; git -C /repo worktree add -q --detach %s HEAD" % wt)
     try:
@@ -22,4 +25,4 @@ for f in sorted(os.listdir(os.path.join(VERIF, "seeded", "rewrites"))):
         print(f, "ALARMS:" if alarms else "no alarm", alarms, flush=True)
     finally:
         sh("git -C /repo worktree remove --force %s" % wt)
-json.dump(out, open(os.path.join(VERIF, "seeded", "rewrites", "RESULT.json"), "w"), indent=1)
+    json.dump(out, open(os.path.join(VERIF, "seeded", "rewrites", resname), "w"), indent=1)
